@@ -74,6 +74,15 @@ def to_xml(n):
 _desc_cache = {}
 
 
+LINKED = set()   # id() of description nodes that came in through a link= attribute
+
+
+def mark_linked(n):
+    LINKED.add(id(n))
+    for k in n.kids:
+        mark_linked(k)
+
+
 def load_desc(dirid, calc):
     """the calculator description with all `link`ed sub-packages spliced in"""
     key = (dirid, calc)
@@ -88,7 +97,10 @@ def load_desc(dirid, calc):
                 pkg = from_et(ET.parse(os.path.join(d, "subpackages", rel)).getroot())
                 for k, v in pkg.attrs.items():
                     n.attrs.setdefault(k, v)          # attributes already present on the linking tag win
-                n.kids += [k.clone() for k in pkg.kids]
+                new = [k.clone() for k in pkg.kids]
+                n.kids += new
+                for k in new:
+                    mark_linked(k)
         for k in n.kids:
             splice(k)
 
@@ -125,8 +137,32 @@ def choice_words(att):
     return multi, words(att)
 
 
+SPECIAL_RE = re.compile(r"([+-]?)(nan|inf|infinity)\Z", re.I)
+
+
+def float_ok(v, nonneg):
+    """type-based: is the literal a value of an IEEE double (and >= 0)?  True / False / None = the statement leaves it open
+    (nan / inf spellings; non-zero literals that underflow to zero)"""
+    m = SPECIAL_RE.match(v)
+    if m:
+        if nonneg and m.group(1) == "-" and m.group(2).lower() != "nan":
+            return False                 # -inf: either no number or negative, rejected under both readings
+        return None
+    if not is_float(v):
+        return False
+    x = float(v)                         # correctly rounded, like strtod
+    if x in (float("inf"), float("-inf")):
+        return False                     # magnitude beyond DBL_MAX: not a double
+    if x == 0.0 and re.search("[1-9]", re.split("[eE]", v)[0]):
+        return None                      # underflow to zero
+    if nonneg and (x < 0.0):
+        return False
+    return True
+
+
 def value_ok(value, choices_att, extra):
-    """does `value` (raw text) satisfy the declared choices?"""
+    """does `value` (raw text) satisfy the declared choices?  True / False / None (unspecified).
+    int, int+ : 64-bit signed VOTCA Index; float, float+ : IEEE double — decided from the literal, not from the code under test"""
     v = value.strip(WS)
     if v in extra:
         return True
@@ -137,9 +173,9 @@ def value_ok(value, choices_att, extra):
     if head == "bool":
         return is_bool(v)
     if head == "float":
-        return is_float(v)
+        return float_ok(v, False)
     if head == "float+":
-        return is_float(v) and float(v) >= 0.0
+        return float_ok(v, True)
     if head == "int":
         return is_int(v)
     if head == "int+":
@@ -163,7 +199,7 @@ def verbatim(u):
     return r
 
 
-def predict(desc_root, user_root, extra=(), honour_user_mark=False):
+def predict(desc_root, user_root, extra=(), honour_user_mark=False, unspec_ok=True, unspec_seen=None):
     """-> ("ok", R tree)  or  ("reject", [(kind, name), ...])   kinds: undeclared / required / choice
     honour_user_mark: the statement does not say what an unchecked= attribute written by the USER on a
     section that the description does not declare unchecked means.  Two readings are allowed: it means nothing
@@ -195,8 +231,14 @@ def predict(desc_root, user_root, extra=(), honour_user_mark=False):
                     r.kids = [verbatim(k) for k in u.kids]
             else:
                 r = R(d.name, d.value if dflt in (None, "OPTIONAL", "REQUIRED") else dflt, True)
-            if not r.kids and "choices" in d.attrs and not value_ok(r.value, d.attrs["choices"], extra):
-                faults.append(("choice", d.name))
+            if not r.kids and "choices" in d.attrs:
+                ok = value_ok(r.value, d.attrs["choices"], extra)
+                if ok is None:               # statement silent (nan/inf/underflow): both outcomes are allowed
+                    if unspec_seen is not None:
+                        unspec_seen.append(d.name)
+                    ok = unspec_ok
+                if not ok:
+                    faults.append(("choice", d.name))
             return r
         r = R(d.name, "", False)
         if "list" in d.attrs and u is not None:
@@ -266,8 +308,15 @@ def user_marks(desc, user):
 def compare(dirid, calc, extra, user, real):
     desc = load_desc(dirid, calc)
     marks = user_marks(desc, user)
-    r = compare1(desc, calc, extra, user, real, False)
-    if r[0] or not marks:
+    unspec = []
+    r = compare1(desc, calc, extra, user, real, False, True, unspec)
+    if not r[0] and unspec:
+        r3 = compare1(desc, calc, extra, user, real, False, False)
+        if r3[0]:
+            return r3
+    if r[0]:
+        return (r[0], r[1], r[2], "unspecified-literal:" + r[3]) if unspec else r
+    if not marks:
         return r
     r2 = compare1(desc, calc, extra, user, real, True)
     if r2[0]:
@@ -279,8 +328,8 @@ def compare(dirid, calc, extra, user, real):
     return r
 
 
-def compare1(desc, calc, extra, user, real, honour):
-    kind, pred = predict(desc, user, extra, honour)
+def compare1(desc, calc, extra, user, real, honour, unspec_ok=True, unspec_seen=None):
+    kind, pred = predict(desc, user, extra, honour, unspec_ok, unspec_seen)
     status, payload = real
     if kind == "reject":
         kinds = sorted({k for k, _ in pred})
@@ -354,6 +403,15 @@ LEGAL = {"bool": ["true", "0", "FALSE"], "int": ["-7", "12", " 5 "], "int+": ["0
          "float": ["-2.5", "1e-3", "7"], "float+": ["0", "2.5", "1E-3", " .5 "]}
 ILLEGAL = {"bool": ["yes", "2", ""], "int": ["x", "1.5", "", "1 2"], "int+": ["-1", "x", "1.5"],
            "float": ["x", "1,5", "", "--1"], "float+": ["-0.5", "x", "-1e-3"]}
+P31, P32, P53, P63, P64 = 2 ** 31, 2 ** 32, 2 ** 53, 2 ** 63, 2 ** 64
+_INTS = ["0", "-0", "+0", "1", "-1", "+1", str(P31 - 1), str(P31), str(-P31), str(-P31 - 1), str(P32), str(P53), str(P53 + 1),
+         str(P63 - 1), "+" + str(P63 - 1), str(-P63 + 1), str(-P63), str(P63), str(-P63 - 1), str(P64), "1e30", "1e3", "1.0",
+         "007", "0" * 24 + "12", "-0042", " %d " % P31, "\t%d\n" % (P63 - 1), "inf", "nan", "1e308", "0x7fffffff"]
+_FLTS = ["0", "-0", "0.0", "-0.0", "1", "-1", "+1.5", "00.5", "-00.5", str(P31), str(P53 + 1), str(P63), "-" + str(P63), "1e30", "-1e30",
+         " 1e308 ", "1e308", "-1e308", "1.7976931348623157e308", "-1.7976931348623157e308", "1.7976931348623159e308", "1e309",
+         "-1e309", "1e-320", "-1e-320", "4.9e-324", "2.2250738585072014e-308", "1e-400", "-1e-400", "inf", "+inf", "-inf",
+         "infinity", "-Infinity", "nan", "NAN", "-nan", "0x1p3", "1e", "1d3"]
+MAGNITUDE = {"int": _INTS, "int+": _INTS, "float": _FLTS, "float+": _FLTS}
 FREE = ["abc", "", 'p <q> & "r" \'s\'', "1 2 3"]
 BAD = "zz_bad"
 
@@ -404,7 +462,7 @@ def needs_input(d):
     if d.attrs.get("default") == "REQUIRED":
         return True
     return (not d.kids and "default" not in d.attrs and "choices" in d.attrs
-            and not value_ok(d.value, d.attrs["choices"], ()))
+            and value_ok(d.value, d.attrs["choices"], ()) is False)
 
 
 def complete(d, u):
@@ -662,6 +720,26 @@ def gen_cases(dirid, calc, tier):
                 c.ensure(pU).kids = [k.clone() for k in free]
                 yield "J-unchecked-declared-siblings/" + ("after" if ufirst else "before"), (), c.user
 
+    # L: magnitude boundaries of the numeric choice types (type-based oracle: int, int+ = 64-bit Index; float, float+ = double)
+    #    quick: per calculator and type the first directly declared leaf and the first leaf reached through a link;
+    #    thorough: every leaf of a numeric type
+    picked = {}
+    for p in leaves:
+        d = p[-1]
+        if "choices" not in d.attrs:
+            continue
+        multi, ws = choice_words(d.attrs["choices"])
+        if not ws or ws[0] not in MAGNITUDE:
+            continue
+        slot = (ws[0], id(d) in LINKED)
+        if not thorough and slot in picked:
+            continue
+        picked[slot] = True
+        for v in MAGNITUDE[ws[0]]:
+            c = Ctx(desc)
+            c.ensure(p).value = v
+            yield "L-magnitude/" + ws[0], (), c.completed().user
+
     # F: pairs of leaves, both set to a legal non-default value (+ siblings reversed; + second one illegal)
     span = 10 ** 9 if thorough else 6
     for i in range(len(leaves)):
@@ -782,7 +860,12 @@ RULE = ("alphabet: every calculator description in xtp/share/xtp/xml (28 files, 
         "every template x every leaf or OPTIONAL subtree L below it: 2 (thorough also 3) repetitions where some supply L and the "
         "others omit it, all arrangements (each repetition must resolve against the pristine template); J every unchecked section U "
         "filled with free content x one undeclared name below every other node of the description (ancestors of U included) x "
-        "U's branch first/last in document order, and declared siblings of U (each, and all) supplied before/after U; K per "
+        "U's branch first/last in document order, and declared siblings of U (each, and all) supplied before/after U; L magnitude boundaries for "
+        "every numeric choice type (int/int+: 0,-0,+-1,2^31-1,2^31,-2^31-1,2^32,2^53,2^63-1,-2^63 valid, 2^63,-2^63-1,2^64,1e30,1.0,inf,nan,"
+        "hex invalid, leading +/zeros, surrounding blanks; float/float+: signed zeros, 2^53+1, 2^63, +-1e30, +-1e308, +-DBL_MAX, "
+        "denormals valid; 1e309, just above DBL_MAX invalid; nan/inf spellings and underflow-to-zero unspecified = either outcome; "
+        "negative => invalid for the + types) on the first directly declared and the first linked leaf of each type per calculator "
+        "(thorough: every numeric leaf); validity decided from the literal against the TYPE (64-bit Index / IEEE double); K per "
         "calculator the empty and the completed input (thorough: + one input per description node, first 40) called 3x in ONE driver "
         "process with a neighborlist call in between: answers byte-identical (differential, no process-wide state). B,C,H both as is and "
         "with all REQUIRED nodes of the touched sections filled in; D also with a user-side unchecked= attribute (two readings allowed). "
@@ -827,9 +910,9 @@ def main():
             rep.cls((calc, cls))
             if not ok:
                 rep.fail(key, "[%s %s] %s" % (calc, fam, what), case_string(dirid, calc, extra, xml))
-            elif len(xml) < 260:
+            elif len(xml) < 260 and not cls.startswith("unspec"):
                 kind = cls if cls.startswith("reject") else "ok/" + fam.split("/")[0]
-                if kind not in sampled and fam[0] in "BCEHIJ":   # one written-out case per outcome kind
+                if kind not in sampled and fam[0] in "BCEHIJL":   # one written-out case per outcome kind
                     sampled.add(kind)
                     rep.samples.insert(0 if kind.startswith("ok") and len(sampled) % 2 else len(rep.samples),
                                        "%s %s: %s -> %s" % (calc, fam, xml, cls if cls.startswith("reject") else
